@@ -3,8 +3,10 @@
 The prompt contains only the property text, the location of the seeder's scratch worktree and one-line summaries of the
 changes earlier seeders produced for that property (so that a new round looks elsewhere). Nothing from /verif's checks."""
 import json, sys, os, glob
-base, L1, L2 = sys.argv[1], sys.argv[2], sys.argv[3]
-only = set(sys.argv[4:])
+args = [a for a in sys.argv[1:] if a != '--no-history']
+no_history = '--no-history' in sys.argv   # a fresh, unconstrained sample: the seeder is told nothing about earlier changes
+base, L1, L2 = args[0], args[1], args[2]
+only = set(args[3:])
 root = os.path.dirname(os.path.dirname(os.path.abspath(__file__)))
 props = [json.loads(l) for l in open(os.path.join(root, 'properties.jsonl'))]
 for p in props:
@@ -12,9 +14,11 @@ for p in props:
     if only and pid not in only:
         continue
     prev = []
-    for m in sorted(glob.glob(os.path.join(root, 'seeded', pid + '-*', 'meta.json'))):
+    for m in ([] if no_history else sorted(glob.glob(os.path.join(root, 'seeded', pid + '-*', 'meta.json')))):
         prev.append('  - ' + json.load(open(m))['summary'][:330])
     wt = f'{base}/{pid}'
+    history = ('Think about what a maintainer would plausibly get wrong in a refactor, a performance optimisation, a "harmless" clean-up, an error-handling change, or a copy-paste from a sibling handler. Every clause of the statement is fair game.' if no_history else
+               'Other seeders have ALREADY produced the following changes for this property. Do not repeat them or close variants of them. Look for DIFFERENT mechanisms and code sites; think about what a maintainer would plausibly get wrong in a refactor, a performance optimisation, a "harmless" clean-up, a new feature flag, an error-handling change, a change of iteration order or of a data structure, or a copy-paste from a sibling handler. Every clause of the statement is fair game, including the less obvious ones:\n' + chr(10).join(prev))
     txt = f"""You are helping test a verification effort for the Go repository initia-labs/OPinit (Cosmos SDK modules: x/ophost on L1, x/opchild on L2, an optimistic-rollup bridge). Your job is to act as a "bug seeder": produce realistic code changes that BREAK one stated semantic property of the code while still compiling and passing the repository's existing unit tests.
 
 Your private scratch copy of the repository is a git worktree at: {wt}
@@ -28,8 +32,7 @@ Statement: {p['statement']}
 
 Must hold: {p['quantifier']['text']}
 
-Other seeders have ALREADY produced the following changes for this property. Do not repeat them or close variants of them. Look for DIFFERENT mechanisms and code sites; think about what a maintainer would plausibly get wrong in a refactor, a performance optimisation, a "harmless" clean-up, a new feature flag, an error-handling change, a change of iteration order or of a data structure, or a copy-paste from a sibling handler. Every clause of the statement is fair game, including the less obvious ones:
-{chr(10).join(prev)}
+{history}
 
 -----
 
